@@ -163,11 +163,16 @@ func TestC13(t *testing.T) {
 		reps = 200
 	}
 	var runs int64
+	raceBroken := false
 	h.Run(c, "race", c.N(200, 2000),
 		func(t *rapid.T) RaceCase { return RaceCase{Prog: genProg(t, withString), Reps: reps} },
 		func(tc RaceCase, o *h.Obs) *h.Fail {
 			if err := validProg(tc.Prog); err != nil || tc.Reps < 1 || tc.Reps > 5000 {
 				o.Excluded = "invalid_case"
+				return nil
+			}
+			if raceBroken {
+				o.Excluded = "race_worker_broken_earlier"
 				return nil
 			}
 			out := rr.run(raceReq{Prog: tc.Prog, Reps: tc.Reps})
@@ -184,7 +189,11 @@ func TestC13(t *testing.T) {
 				o.Excluded = "race_worker_failure"
 				return nil
 			case out.timeout:
-				c.Incomplete("sub-check (b): worker process gave no answer within 120 s (hang under real locks?)\n%s%s", progText(tc.Prog, nil), tailStr(out.stderr, 1500))
+				if bl := blockedInEnvLocks(out.stderr); len(bl) > 0 {
+					return h.Failf("C13|deadlock|real-locks", "real goroutines, real locks: the worker process made no progress for %v and its goroutine dump shows goroutines blocked acquiring the scope's mutex from inside package env:\n  %s\n%s", hangLimit, strings.Join(bl, "\n  "), progText(tc.Prog, nil))
+				}
+				raceBroken = true
+				c.Incomplete("sub-check (b): worker process gave no answer within %v and no goroutine is blocked in a lock of package env\n%s%s", hangLimit, progText(tc.Prog, nil), tailStr(out.stderr, 1500))
 				o.Excluded = "race_worker_timeout"
 				return nil
 			case out.died:
